@@ -2,6 +2,7 @@ package harness
 
 import (
 	"fmt"
+	"strings"
 
 	"pgregory.net/rapid"
 )
@@ -235,6 +236,16 @@ func monC11Settings(c *Case, tr *Trace) []Violation {
 		}
 		if f.F.Kind == "window_update" && rev == 0 {
 			add("window_update_in_revision_zero", f.Step, "the client emitted %s although revision zero was negotiated", f.F)
+		}
+	}
+	// the settings exchange is *used*: under revision one the window announced in the settings message (any value,
+	// not only the stock 64 KiB) is what bounds the caller's un-credited request bytes on every stream
+	if rev == 1 {
+		for _, v := range monC06Sender(c, tr) {
+			if v.Class == "window_exceeded_by_sender" && strings.Contains(v.Details, "toServer=true") {
+				add("announced_window_not_used", v.Step, "%s", v.Details)
+				break
+			}
 		}
 	}
 	// with acceptable settings every RPC works (judged by the raw-server oracle)
